@@ -278,13 +278,13 @@ CHECKS = {
         "title": "The v1.2.0 upgrade and store migrations preserve locked value",
         "level": "exploration",
         "technique": "property-based testing (rapid): generated pre-upgrade stores written in the previous (v2) format and legacy x/params content, the upgrade's steps run through their public entry points, compared field by field with an expected post-state derived from the documented upgrade (CHANGELOG v1.2.0)",
-        "tests": [T("TestC16", 1000, 5000, qshards=2)],
+        "tests": [T("TestC16", 1000, 5000, qshards=2), T("TestC16Handler", 300, 1500, tshards=8)],
         "rule": "cases = pre-upgrade state: vesting types (presence/absence of 'Validators', a type named like a new one), 0-3 owners incl. presence/absence of the hard-coded owner, its pools 'Validators pool' / 'Advisors pool' / a pool named like a new pool / others in any order, initially-locked from {sum-1..sum-1000, sum, sum+0..1000, main-net value, boundary mixture}, arbitrary sent/withdrawn histories, module balance funded to match, vesting denomination uc4e or uatom; 0-8 traces in the old format drawn from the 24 hard-coded addresses and others; the four founder addresses absent / base / continuous vesting (incl. a 29 Feb start, delegated vesting, sequence); legacy minter configuration from the valid generator (1 in 5 made invalid) and legacy distributor parameters from the valid generator. "
                 "Run: cfevesting / cfeminter / cfedistributor Migrate2to3, UpdateVestingAccountTraces, ModifyVestingPoolsState, ModifyVestingAccountsState. Oracle: total locked and module balance unchanged and equal; every pool equals the field-for-field image of its predecessor, plus - iff the owner, the pool, the type and enough locked coins exist - exactly the documented split (rename, 72M C4E moved into four new genesis pools with the documented lock ends and types, Advisors pool flagged), otherwise nothing of it; vesting types likewise; solvency bounds; traces keep ids and get the documented genesis flags; founder vesting accounts move start and end by one calendar year and are otherwise byte-identical, all other accounts and all balances are untouched; migrated minter and distributor parameters validate and equal the legacy values, an invalid legacy minter configuration is rejected without writing. Non-trivial = hard-coded owner present together with another owner. Distinct = SHA-256 of the pre-state.",
         "min_nontrivial_fraction": 0.3,
         "min_class_fraction": {"split_applied": 0.08, "split_precondition_failed": 0.3, "founder_schedule_shifted": 0.4, "invalid_legacy_minter": 0.1, "colliding_pool_name": 0.08},
         "level_text": "The upgrade runs once and irreversibly on main net; the check evaluates its steps on generated pre-upgrade stores instead of the handful of fixtures.",
-        "level_note": "The steps are driven through keeper.NewMigrator(...).Migrate2to3 and the exported v120 functions in the handler's order; the handler's own module-manager plumbing (RunMigrations, ICA module init) is not executed. Synthetic stores, not the real main-net store.",
+        "level_note": "TestC16 drives the steps through keeper.NewMigrator(...).Migrate2to3 and the exported v120 functions in the handler's order (and also feeds invalid legacy minter configurations); TestC16Handler runs the same generated pre-upgrade states through the real handler: x/upgrade ApplyUpgrade -> CreateUpgradeHandler -> ICA init, key tables, module-manager RunMigrations from consensus version 2, the three v120 steps - on a chain whose genesis has no interchain-accounts state. Synthetic stores, not the real main-net store; the pre-upgrade consensus version of cfesignature is assumed to be 2 (the module registers no migration).",
         "design_ref": "DESIGN.md §5 C16",
     },
 }
